@@ -816,13 +816,16 @@ func (tree *MutableTree) SaveVersion() ([]byte, int64, error) {
 }
 
 func (tree *MutableTree) saveFastNodeVersion(latestVersion int64) error {
+	// The label is written before the fast nodes: the batch can be flushed at
+	// any point, and a stop between two flushes must not leave fast nodes of the
+	// new version behind under a label that still names the old one.
+	if err := tree.ndb.SetFastStorageVersionToBatch(latestVersion); err != nil {
+		return err
+	}
 	if err := tree.saveFastNodeAdditions(); err != nil {
 		return err
 	}
-	if err := tree.saveFastNodeRemovals(); err != nil {
-		return err
-	}
-	return tree.ndb.SetFastStorageVersionToBatch(latestVersion)
+	return tree.saveFastNodeRemovals()
 }
 
 func (tree *MutableTree) getUnsavedFastNodeAdditions() map[string]*fastnode.Node {
